@@ -5,7 +5,7 @@
 //! requests (see lean/RsslVerif/Driver/C11.lean for the same grammar):
 //!   C11.seq  \t <symbols>            0 1 d n e E l f t D  (+ implicit probe line `probe M`)
 //!   C11.run  \t <dir>;<dir>;...      i:<cond> d:<name> n:<name> e:<cond> l f t:<toks> D:<name>:<body>
-//!                                    U:<name> P:once|warning|unknown I:<toks> I! X
+//!                                    U:<name> P:once|warning|unknown I:<toks> I! X N
 //!   C11.cond \t <n=body,...> \t <cond tokens>
 //! tokens are separated by one space; `<~` / `>~` = angle bracket glued to the next token.
 //! observe : `ok line|line|...` (non-empty output lines, token texts joined by one space) or
@@ -35,6 +35,8 @@ enum Dir {
     Pragma(String),
     Include(Option<String>),
     Unknown,
+    /// `#3`: a directive that does not start with a name
+    NonName,
 }
 
 fn parse_dir(s: &str) -> Option<Dir> {
@@ -53,6 +55,7 @@ fn parse_dir(s: &str) -> Option<Dir> {
         ["I", t] => Dir::Include(Some(t.to_string())),
         ["I!"] => Dir::Include(None),
         ["X"] => Dir::Unknown,
+        ["N"] => Dir::NonName,
         _ => return None,
     })
 }
@@ -72,6 +75,7 @@ fn show_dir(d: &Dir) -> String {
         Dir::Include(Some(t)) => format!("I:{}", t),
         Dir::Include(None) => "I!".into(),
         Dir::Unknown => "X".into(),
+        Dir::NonName => "N".into(),
     }
 }
 
@@ -179,6 +183,7 @@ fn build_files(dirs: &[Dir], style: u8) -> Vec<(String, String)> {
             }
             Dir::Include(None) => main.push_str("#include \"missing.h\"\n"),
             Dir::Unknown => main.push_str(&format!("{}frobnicate{}1{}", hash, gap, eol)),
+            Dir::NonName => main.push_str(&format!("{}3{}", hash, eol)),
         }
     }
     files.insert(0, ("main.rssl".to_string(), main));
@@ -327,7 +332,9 @@ fn model_tokens(text: &str, trailing_endline: bool, directives: bool) -> String 
     r.unwrap_or_else(|_| "X".into())
 }
 
-/// does a known divergence in a skipped group explain this error variant?
+/// does a divergence class in a skipped group explain this error variant?  (`lexer-error` and
+/// `junk-after-else-endif` are known findings; `non-identifier-directive` is repaired (fix ed75afa) and is kept
+/// only so that a return of the defect is reported under its old key)
 fn explained_by_hint(hints: &std::collections::BTreeSet<&'static str>, v: &str) -> Option<&'static str> {
     if v == "LexerError" && hints.contains("unlexable-in-skipped") {
         Some("skipped-group lexer-error")
@@ -359,7 +366,10 @@ fn judge_raw(rr: &raw::RefResult, obs: &Observed, flat: &[String]) -> String {
         },
         (raw::Expected::Reject(kind, _), Observed::Ok(_)) => format!("FAIL:{} accepted", kind),
         (raw::Expected::Reject(kind, want), Observed::Err(v)) => {
-            if want.is_empty() || want == v || explained_by_hint(&rr.hints, v).is_some() {
+            // a still-known divergence in a skipped group may pre-empt the required variant; the repaired class
+            // (non-identifier directives, fix ed75afa) excuses nothing any more
+            let excused = matches!(explained_by_hint(&rr.hints, v), Some(c) if c != "skipped-group non-identifier-directive");
+            if want.is_empty() || want == v || excused {
                 "ok".into()
             } else {
                 format!("FAIL:{} reported as {}", kind, v)
@@ -698,6 +708,9 @@ fn reference(dirs: &[Dir]) -> Expected {
             }
             Dir::Include(None) => verdict = Some(Expected::Reject("missing-include", "FailedToFindFile")),
             Dir::Unknown => verdict = Some(Expected::Reject("unknown-directive", "UnknownCommand")),
+            // `# non-directive` in a processed group: undefined behaviour in C (6.10 p9); in a skipped group it
+            // is not looked at (the `_ if !active` arm above)
+            Dir::NonName => verdict = Some(Expected::Skip("non-directive in a selected group".into())),
         }
     }
     if ill_formed_somewhere {
@@ -872,6 +885,8 @@ fn do_request(line: &str, out: &mut Out, st: &mut Stats) {
                 out.case(line, "bad-request", "SKIP:bad request");
                 return;
             };
+            // the value of an API define may carry an escaped line break (fix 3c81ed5: rejected as InvalidDefine)
+            let defs: Vec<(String, String)> = defs.into_iter().map(|(n, v)| (n, unescape(&v))).collect();
             let mut files = vec![("main.rssl".to_string(), unescape(rest[0]))];
             for f in &rest[1..] {
                 let p: Vec<&str> = f.splitn(2, '=').collect();
@@ -1178,6 +1193,7 @@ fn random_runs(r: &mut Rng, n: u64, out: &mut Out, st: &mut Stats) {
                     if r.chance(2, 3) { Dir::Include(Some(format!("inc{} A B", i))) } else { Dir::Include(None) }
                 }
                 76..=77 => Dir::Unknown,
+                78..=79 => Dir::NonName,
                 _ => Dir::Text(format!("t{} A B C", i)),
             };
             dirs.push(d);
